@@ -6,7 +6,7 @@ use crate::{
     attr::{Attr, EnumAttr, FieldAttr, StructAttr, Tagged, VariantAttr},
     deps::Dependencies,
     types::{self, type_as, type_override},
-    utils::make_string_literal,
+    utils::{escaped_name, make_string_literal},
     DerivedTS,
 };
 
@@ -100,6 +100,9 @@ fn format_variant(
         ts_name.clone(),
         &variant.fields,
     )?;
+
+    // from here on, the name only appears between double quotes
+    let ts_name = escaped_name(&ts_name);
 
     let variant_dependencies = variant_type.dependencies;
     let inline_type = variant_type.inline;
